@@ -833,4 +833,7 @@ def run(res, tier):
         n6 = c18.ser6(p, res, rd, wr, only=lambda k: "ompressed" in k)
         res.floor("SER-6", "compressed writer/reader pairs", n6, 11)
         c18.ser4(p, res, rd, wr, only=lambda k: "ompressed" in k, floor=10)
+        res.rule("SER-10", "compressed layouts: a reader that stages the seed table in a temporary commits the whole temporary")
+        n10 = c18.ser10(p, res)
+        res.floor("SER-10", "staged seed-table commits", n10, 2)
         res.fn_count += len(kernel_sites(p)) + 6
